@@ -23,6 +23,7 @@ type c19Op struct {
 	Slot int         `json:"slot"`          // 0,1: two chain ids of the case's router; 2: a chain id of another router of the family
 	G    int         `json:"g,omitempty"`   // install: genesis variant (height / next validator set / chain-id string / block version)
 	By   string      `json:"by,omitempty"`  // install: "" operator | validator (one consensus validator) | outsider | nobody
+	Mal  string      `json:"mal,omitempty"` // install: stored field malformed but accepted by the install path: nvh-empty | nvh-20 | nvh-33 | vh-empty (empty stored block hash) | chain-empty | chain-long
 	Hdr  *headerSpec `json:"hdr,omitempty"` // sync: one header built relative to the tracked state
 }
 
@@ -60,12 +61,43 @@ func genC19(t *rapid.T) c19Case {
 			return c19Op{Kind: "sync", Slot: slot, Hdr: &h}
 		}
 		return c19Op{Kind: "install", Slot: slot, G: rapid.SampledFrom([]int{0, 0, 0, 1, 1, 2, 3}).Draw(t, "g"),
-			By: rapid.SampledFrom([]string{"", "", "", "", "", "validator", "outsider", "nobody"}).Draw(t, "by")}
+			By:  rapid.SampledFrom([]string{"", "", "", "", "", "validator", "outsider", "nobody"}).Draw(t, "by"),
+			Mal: genMal().Draw(t, "mal")}
 	})
 	// the history starts with the operator's installation on slot 0 (everything else is free)
-	first := c19Op{Kind: "install", Slot: 0, G: rapid.IntRange(0, 3).Draw(t, "g1")}
+	first := c19Op{Kind: "install", Slot: 0, G: rapid.IntRange(0, 3).Draw(t, "g1"), Mal: genMal().Draw(t, "mal1")}
 	c.Ops = append([]c19Op{first}, rapid.SliceOfN(genOp, 2, ev.Scale(10, 16)).Draw(t, "ops")...)
 	return c
+}
+
+var c19Mals = []string{"nvh-empty", "nvh-20", "nvh-33", "vh-empty", "chain-empty", "chain-long"}
+
+func genMal() *rapid.Generator[string] {
+	return rapid.OneOf(rapid.Just(""), rapid.Just(""), rapid.SampledFrom(c19Mals))
+}
+
+// malform applies a malformed-but-accepted stored field to a genesis header spec.
+func malform(h *headerSpec, mal string) bool {
+	switch mal {
+	case "":
+	case "nvh-empty":
+		h.nvhSet, h.nvhRaw = true, nil
+	case "nvh-20":
+		h.nvhSet, h.nvhRaw = true, h32("short")[:20]
+	case "nvh-33":
+		h.nvhSet, h.nvhRaw = true, append(h32("long"), 0x33)
+	case "vh-empty": // the routers store Header.Hash(), which is empty when ValidatorsHash is empty
+		h.vhEmpty = true
+	case "chain-empty":
+		e := ""
+		h.chainRaw = &e
+	case "chain-long":
+		l := string(bytes.Repeat([]byte("c"), 300))
+		h.chainRaw = &l
+	default:
+		return false
+	}
+	return true
 }
 
 // genesisVariant: variants differ in height, next validator set, chain-id string and (cosmos) block version.
@@ -115,8 +147,9 @@ type c19Slot struct {
 	r         *runner
 	router    string
 	installed bool
-	g         int // variant that was installed
-	advances  int // accepted state advances since installation
+	g         int    // variant that was installed
+	mal       string // malformed stored field of the installed trust root ("" = well formed)
+	advances  int    // accepted state advances since installation
 }
 
 func runC19(ctx *ev.Ctx, c c19Case) {
@@ -205,7 +238,12 @@ func runC19(ctx *ev.Ctx, c c19Case) {
 			if s.router != "cosmos" {
 				ver = 10
 			}
-			g := s.r.build(headerSpec{Rel: 0, Set: next + 1, Next: next, Ver: ver}, tracked{Height: gh, ChainID: chain})
+			gspec := headerSpec{Rel: 0, Set: next + 1, Next: next, Ver: ver}
+			if !malform(&gspec, op.Mal) {
+				ctx.Label("malformed-case")
+				continue
+			}
+			g := s.r.build(gspec, tracked{Height: gh, ChainID: chain})
 			var signers []common.Address
 			switch op.By {
 			case "validator":
@@ -228,7 +266,10 @@ func runC19(ctx *ev.Ctx, c c19Case) {
 				// ---- first installation(s): not judged, only recorded
 				switch {
 				case res.OK() && after[op.Slot].Present:
-					s.installed, s.g, s.advances = true, op.G, 0
+					s.installed, s.g, s.mal, s.advances = true, op.G, op.Mal, 0
+					if op.Mal != "" {
+						c19Count(s.router, "first_install_with_malformed_stored_field("+op.Mal+")")
+					}
 					if byOperator {
 						c19Count(s.router, "first_install_ok")
 					} else {
@@ -248,8 +289,11 @@ func runC19(ctx *ev.Ctx, c c19Case) {
 			}
 			// ---- the trust root exists: EVERY further attempt must fail and change nothing
 			kind := "different_data"
-			if op.G%4 == s.g%4 {
+			if op.G%4 == s.g%4 && op.Mal == s.mal {
 				kind = "same_data"
+			}
+			if s.mal != "" {
+				c19Count(s.router, "reinstall_attempts_on_malformed_trust_root")
 			}
 			if !byOperator {
 				kind += "_non_operator"
@@ -257,7 +301,7 @@ func runC19(ctx *ev.Ctx, c c19Case) {
 			c19Count(s.router, "reinstall_attempts_"+kind)
 			if s.advances > 0 {
 				c19Count(s.router, "reinstall_attempts_after_sync")
-				if op.G%4 != s.g%4 {
+				if op.G%4 != s.g%4 || op.Mal != s.mal {
 					nontrivial = true
 				}
 			}
@@ -267,7 +311,7 @@ func runC19(ctx *ev.Ctx, c c19Case) {
 					ctx.Known(s.router+"-genesis-reinstall-accepted",
 						"op %d: syncGenesisHeader (%s, signed by %q) for chain %d (%s) whose trust root %v is already installed SUCCEEDED and changed state: now %v; %s",
 						oi, kind, op.By, s.r.e.chain, s.router, before[op.Slot], after[op.Slot], diff)
-					s.g, s.advances = op.G, 0
+					s.g, s.mal, s.advances = op.G, op.Mal, 0
 				} else {
 					ctx.Known(s.router+"-genesis-reinstall-reports-success",
 						"op %d: syncGenesisHeader (%s, signed by %q) for chain %d (%s) whose trust root is already installed reported success (state unchanged)",
@@ -313,7 +357,7 @@ func TestC19(t *testing.T) {
 	}()
 	ev.Drive(t, id,
 		"unit for the Tendermint-family routers (cosmos, okex, polygon-heimdall): three freshly registered chain ids per case (two of one router, one of another) in an L1 native world; 3..17 operations (the first one is the operator's installation on the first chain): "+
-			"syncGenesisHeader with one of 4 genesis variants (height / next validator set / chain-id string / block version) witnessed by the operator, a single validator, an outsider or nobody, and syncBlockHeader with one synthetic header (mostly fully signed, advancing). "+
+			"syncGenesisHeader with one of 4 genesis variants (height / next validator set / chain-id string / block version), optionally with a stored field that is malformed but accepted by the install path (next-validators hash empty / 20 / 33 bytes, empty stored block hash, empty or 300-byte chain id), witnessed by the operator, a single validator, an outsider or nobody, and syncBlockHeader with one synthetic header (mostly fully signed, advancing). "+
 			"oracle: once a chain has a trust root every later syncGenesisHeader for it returns an error and the full world dump is byte-identical before/after; no operation changes another chain's light-client state. "+
 			"non-trivial: a re-installation with different genesis data after at least one accepted header advance on that chain; distinct by JSON encoding of the case",
 		genC19, runC19)
